@@ -113,6 +113,42 @@ def e2e_case(runner, r, oc, reqs, pend, kinds, regens, big=False):
             oc.samples.append(dict(model=model, outdir=outdir_arg, cwd=cwd, edited={k: sorted(v) for k, v in edits.items()}, regenerations=regens))
 
 
+def fresh_process_case(r, oc):
+    """the build script run again: every (re)generation in a fresh interpreter with its own hash seed"""
+    import subprocess
+    import sys
+    worker = os.path.join(os.path.dirname(os.path.dirname(os.path.abspath(__file__))), "detworker.py")
+
+    def gen(model, out, hs):
+        env = dict(os.environ, PYTHONHASHSEED=str(hs))
+        p = subprocess.run([sys.executable, worker], input=json.dumps(dict(model=model, outdir=out, cwd="/")), text=True, capture_output=True, env=env, timeout=300)
+        return p.returncode, p.stderr[-400:]
+    model = genlib.rand_model(r, ("sm", "sm", "sm", "proto", "uml"))
+    seeds = r.sample([0, 1, 2, 3, 5, 7, 11, 4242, 99991], 4)
+    with scratch() as base:
+        out = os.path.join(base, "out")
+        rc, err = gen(model, out, seeds[0])
+        if rc != 0:
+            oc.corr_failures.append(dict(what="worker failed: " + err, model=model))
+            return
+        wrote = 0
+        for rel, data in sorted(e2e.snapshot(out).items()):
+            dups = genlib.duplicate_tags(data.decode("utf-8", "surrogateescape"))
+            wrote += len(genlib.edit_file(r, os.path.join(out, rel), fraction=0.6, skip=dups))
+        gen(model, out, seeds[1])           # TAB normalisation happens here
+        ref = e2e.snapshot(out)
+        for hs in seeds[2:]:
+            rc, err = gen(model, out, hs)
+            cur = e2e.snapshot(out)
+            if rc != 0 or cur != ref:
+                d = e2e.tree_diff(ref, cur)
+                oc.violations.append(dict(what="regenerating the unchanged model in a fresh interpreter (PYTHONHASHSEED=%s) changes the tree: %s" % (hs, d[:4]), model=model,
+                                          hashseeds=seeds, before=ref.get(d[0][1:]) if d else None, after=cur.get(d[0][1:]) if d else None))
+                return
+        oc.case(("fresh-process", json.dumps(model, sort_keys=True, default=str)), nontrivial=wrote > 0)
+        oc.stat("regenerations_in_a_fresh_interpreter", len(seeds) - 1)
+
+
 def settle(oc, reqs, pend):
     answers = lean_batch(reqs)
     for (kind, info, impl), ans in zip(pend, answers):
@@ -160,7 +196,7 @@ def run(tier):
     proof = proof_status(PROP, thorough)
     oc = Outcome(PROP)
     oc.rule = ("unit: generated tagged documents (35% malformed) through CollectFile/Emplace vs model; "
-               "e2e: random model x back end x outdir spelling, user text in a random subset of tag pairs, 2-4 regenerations; "
+               "e2e: random model x back end x outdir spelling, user text in a random subset of tag pairs, 2-4 regenerations; the same with every (re)generation in a fresh interpreter under its own PYTHONHASHSEED; "
                "non-trivial = at least one tag pair holds user text (e2e) / at least one block collected (unit); distinct by full input")
     oc.assumptions = TRUSTED
     r = rng(PROP)
@@ -187,6 +223,10 @@ def run(tier):
         e2e_case(runner, r, oc, reqs, pend, ("sm", "sm", "sm", "proto", "uml"), r.choice([2, 2, 3, 4]) if thorough else 2, big=thorough)
         if oc.violations:
             break
+    for i in range(40 if thorough else 6):
+        if oc.violations:
+            break
+        fresh_process_case(r, oc)
     settle(oc, reqs, pend)
     return finish(PROP, tier, proof, oc, t0, trusted=TRUSTED, search=search)
 
